@@ -63,6 +63,9 @@ def main():
     checks = sorted(c.get("property_id") or c.get("property") or c.get("id") for c in man["checks"])
     seeds = sys.argv[1:] or sorted(d for d in os.listdir(os.path.join(VERIF, "seeded")) if os.path.isdir(os.path.join(VERIF, "seeded", d)))
     out = {}
+    mj = os.path.join(VERIF, "seeded", "MATRIX.json")
+    if sys.argv[1:] and os.path.exists(mj):
+        out = json.load(open(mj))  # explicit seeds: refresh only those rows
     with ThreadPoolExecutor(4) as ex:
         for seed, res in ex.map(lambda s: run(s, checks), seeds):
             out[seed] = res
